@@ -29,6 +29,7 @@ Inductive cop :=
 | OConnect (now : Z) (tgt : string)
 | OConnectError (now : Z) (tgt : string) (msg : string)
 | OUpdateMeta (now : Z)
+| OUpdT (now : Z) (tgt : string) (n : notif)       (* Cache.GetTarget(tgt).GnmiUpdate(n): a write through the exported Target handle *)
 | ONop                                             (* harness-only step (a gated subscriber is held / released): the cache is not called *)
 | OPair (a b : cop).                               (* [b] was issued from a second goroutine while [a] was parked inside its
                                                       critical section: must behave as [a] then [b] *)
@@ -224,6 +225,12 @@ Fixpoint mstep (c : cache) (o : cop) {struct o} : cache * rcls * mfeed :=
   | OConnectError now tgt msg =>
       let '(c', gs, r) := cache_connect_error c now tgt msg in (c', quiet r, MGroups gs)
   | OUpdateMeta now => let '(c', l, p) := cache_update_metadata c now in (c', opt_panic p, MBag l)
+  | OUpdT now tgt n =>
+      (* the handle stores in ITS target whatever the prefix says; no handle: the harness does not call *)
+      match assoc tgt (c_targets c) with
+      | None => (c, ROther, MGroups [])
+      | Some t => let '(t', gs, r) := target_gnmi_update t now n in (set_target c tgt t', rcls_of r, MGroups gs)
+      end
   | ONop => (c, ROk, MBag [])
   | OPair a b =>
       let '(c1, r1, f1) := mstep c a in
